@@ -76,10 +76,13 @@ Definition aggs_of_cmp (c : acmp) : list aggr := match c with CAgg _ g | CBetwee
 Definition aggs (sp : aspec) : list aggr := a_agg sp :: aggs_of_cmp (a_cmp sp).
 Definition has_label (l : string) (ls : list (string * col)) : bool := existsb (fun p => String.eqb (fst p) l) ls.
 (* the variables fixed outside the aggregates: those of the whenever clauses, and the subject of a passive form *)
+(* (of several aggregates under the same label the atom of the LAST one survives: _remove_duplicates keeps the last of equal atoms) *)
+Fixpoint keep_last_label (l : list (string * col)) : list (string * col) :=
+  match l with [] => [] | x :: r => if has_label (fst x) r then keep_last_label r else x :: keep_last_label r end.
 Definition passive_labels (sp : aspec) : list (string * col) :=
-  fold_left (fun acc g => match g_label g with
-                          | Some l => if passive (g_form g) && negb (has_label l (a_whenever sp)) && negb (has_label l acc) then (acc ++ [(l, KRoom)])%list else acc
-                          | None => acc end) (aggs sp) [].
+  keep_last_label (flat_map (fun g => match g_label g with
+                                      | Some l => if passive (g_form g) && negb (has_label l (a_whenever sp)) then [(l, KRoom)] else []
+                                      | None => [] end) (aggs sp)).
 Definition outer_labels (sp : aspec) : list (string * col) := (passive_labels sp ++ a_whenever sp)%list.
 
 Definition dom_of (sp : aspec) (c : col) : list Z := match c with KRoom => rooms sp | KShelf => shelf_ids sp | KWeight => map snd (a_shelves sp) end.
